@@ -617,6 +617,15 @@ impl Tracer {
                 }
                 Some(StopReason::SignalStop(_, signal)) => {
                     if QUIET_SIGNALS.contains(&signal) {
+                        // the signal is injected right here, drop the request queued by
+                        // `apply_new_status` or the next resume will deliver it a second time
+                        if let Some(pos) = self
+                            .inject_signal_queue
+                            .iter()
+                            .rposition(|req| *req == (pid, signal))
+                        {
+                            self.inject_signal_queue.remove(pos);
+                        }
                         self.tracee_ctl.tracee_ensure(pid).step(Some(signal))?;
                         continue;
                     }
